@@ -439,9 +439,11 @@ void newlines_cleanup_braces(bool first)
                else
                {
                   // Step back from next to the first non-newline item
-                  Chunk *tmp = next->GetPrev();
+                  // (from the end of the file if nothing follows the brace)
+                  Chunk *tmp = next->IsNotNullChunk() ? next->GetPrev() : Chunk::GetTail();
 
-                  while (tmp != pc)
+                  while (  tmp != pc
+                        && tmp->IsNotNullChunk())
                   {
                      if (tmp->IsComment())
                      {
